@@ -108,15 +108,37 @@ system T1, U;
 ]
 
 
+def _twin_xml(old):
+    loc = lambda i, name, inv=None, **kw: dict({"id": "id%d" % i, "name": name}, **({"inv": inv} if inv else {}), **kw)
+    if old:
+        return {"decl": "const N 2; int i; int j; clock x; chan c; broadcast chan b;",
+                "templates": [{"name": "T", "params": "int p; const q, q2; chan d", "decl": "int l := 0; const K 1;",
+                               "locations": [loc(0, "A", "x <= 5, x < 7"), loc(1, "B", urgent=True), loc(2, "C", committed=True)], "init": "id0",
+                               "edges": [{"src": "id0", "dst": "id1", "guard": "i < 2, x >= 1", "sync": "c!", "assign": "i := 1, l := q + q2 + K"},
+                                         {"src": "id1", "dst": "id2", "guard": "p == N"}, {"src": "id2", "dst": "id0", "sync": "d?", "assign": "p := 0, x := 0"}]}],
+                "system": "Q := T(j, 1, 2, c);\nsystem Q;"}
+    return {"decl": "const int N = 2; int i; int j; clock x; chan c; broadcast chan b;",
+            "templates": [{"name": "T", "params": "int &p, const int q, const int q2, chan &d", "decl": "int l = 0; const int K = 1;",
+                           "locations": [loc(0, "A", "x <= 5 && x < 7"), loc(1, "B", urgent=True), loc(2, "C", committed=True)], "init": "id0",
+                           "edges": [{"src": "id0", "dst": "id1", "guard": "i < 2 && x >= 1", "sync": "c!", "assign": "i = 1, l = q + q2 + K"},
+                                     {"src": "id1", "dst": "id2", "guard": "p == N"}, {"src": "id2", "dst": "id0", "sync": "d?", "assign": "p = 0, x = 0"}]}],
+            "system": "Q = T(j, 1, 2, c);\nsystem Q;"}
+
+
 def syntax_twins(c):
     jobs = []
     for k, (old, new) in enumerate(SYNTAX_TWINS):
         jobs.append({"id": "o%d" % k, "entry": "xta", "text": old, "newxta": False})
         jobs.append({"id": "n%d" % k, "entry": "xta", "text": new})
+    k = len(SYNTAX_TWINS)          # the same through the XML reader: labels, parameters and declarations in 3.x spelling with newxta = false
+    xo, xn = xmlgen.render_xml(_twin_xml(True)), xmlgen.render_xml(_twin_xml(False))
+    jobs.append({"id": "o%d" % k, "entry": "xml_buffer", "text": xo, "newxta": False})
+    jobs.append({"id": "n%d" % k, "entry": "xml_buffer", "text": xn})
+    pairs = list(SYNTAX_TWINS) + [(xo, xn)]
     res = vf.run_jobs(jobs, c.run_dir, variant="plain", name="twins")
     bv, bt = set(docgen.builtin_vars(c)), set(docgen.BUILTIN_TYPES)
     n = 0
-    for k, (old, new) in enumerate(SYNTAX_TWINS):
+    for k, (old, new) in enumerate(pairs):
         ro, rn = res["o%d" % k], res["n%d" % k]
         if ro.get("main", {}).get("outcome") != "return" or rn.get("main", {}).get("outcome") != "return":
             c.finding("c05:syntax-twin:outcome", "the 3.x and 4.x spellings of one model end differently: %s / %s" % (ro.get("main"), rn.get("main")), {"old": old, "new": new})
